@@ -34,12 +34,16 @@ CONNECT_RULE = ("random scripts of 1-8 attempts {transport error, cancellation i
                 "body kinds none / NoBody / body without GetBody / with GetBody / GetBody failing after k calls; OnRetry set or not; an initial Last-Event-ID header "
                 "sometimes present; Backoff: microsecond intervals, Jitter -1, Multiplier 1 / 1.5 / 2, MaxInterval unset / = initial / 2x, MaxRetries -1 / 0 / 1 / 2 / 3 / 5, "
                 "MaxElapsedTime unset / 1 ns / 1 h; server retry values >= 0.9 s lead to cancellation inside OnRetry; plus a sweep: endings (EOF / error / "
-                "cancellation / a read error that wraps io.EOF) after every byte position of six short streams; corpus: D3 / D3b / D6 witnesses and C10 / C12 scenarios. "
+                "cancellation / a read error that wraps io.EOF / read errors that are, wrap or match a sentinel: 20 characters) after every byte position of six short streams (event boundary, mid-line, after a CR); corpus: D3 / D3b / D6 witnesses and C10 / C12 scenarios. "
                 "Every injected error (transport, validator verdict, reader, GetBody) is a value of a random character: plain, Temporary() true, Timeout() true, wrapping io.EOF / "
                 "io.ErrUnexpectedEOF / os.ErrDeadlineExceeded, *net.OpError around a wrapped io.EOF, network errors as they really look (*net.OpError{Op:dial} around ECONNREFUSED, "
                 "*net.OpError{Op:read} around ECONNRESET, both also inside a *url.Error, *net.DNSError alone and inside a dial error), and errors that are / wrap / match (Is method, as "
-                "http.Client.Timeout's and a dialer's timeout errors do) context.DeadlineExceeded or context.Canceled while the request context is alive - projected by identity (errors.As on "
-                "the harness's own type first, == for the bare sentinels), the model takes the index as opaque; plus a sweep: every character at every site (transport, reader, validator, GetBody at "
+                "http.Client.Timeout's and a dialer's timeout errors do) context.DeadlineExceeded or context.Canceled while the request context is alive, errors that ARE a well-known sentinel "
+                "(io.ErrUnexpectedEOF - what net/http returns for a body shorter than its Content-Length -, bufio.ErrTooLong, the library's own ErrUnexpectedEOF and ErrNoGetBody, "
+                "os.ErrDeadlineExceeded, io.ErrClosedPipe, io.ErrNoProgress, net.ErrClosed, http.ErrBodyReadAfterClose, io.ErrShortBuffer, ECONNRESET, http.ErrHandlerTimeout) and errors that "
+                "wrap bufio.ErrTooLong / sse.ErrUnexpectedEOF / sse.ErrNoGetBody or match io.EOF / the ErrUnexpectedEOFs / bufio.ErrTooLong through an Is method - projected by identity (errors.As on "
+                "the harness's own type first, == for the bare sentinels and only for the one injected in the current attempt: sse.ErrUnexpectedEOF and io.ErrUnexpectedEOF are different "
+                "values, so 'the injected value came back' and 'the library's own sentinel came back' are told apart), the model takes the index as opaque; plus a sweep: every character at every site (transport, reader, validator, GetBody at "
                 "its first / second call) with every body kind, followed by two more attempts. The request context is of a random kind: WithCancel, WithCancelCause ended with a cause of its own "
                 "(one that wraps context.Canceled included), a WithCancel / WithValue / WithTimeoutCause child of such a context, a deadline with a cause that expires at the scripted instant "
                 "(a Context whose Err() turns context.DeadlineExceeded when the harness says so) or that passed before Connect (real WithDeadlineCause); plus a sweep: every kind ended at every "
@@ -86,8 +90,9 @@ PROPS["C11"] = {
                    "interpreter in Read mode and checked on the real sse.Read over a scripted reader (family read_c11)."),
     "level_note": CLIENT_NOTE + CONNECT_NOTE,
     "rule": CONNECT_RULE + " Family read_c11: sse.Read over the same stream grammar with clean / erroneous endings, all chunkings, the end reported with or after the last "
-            "bytes, plus endings (clean, and a read error of each character) after every byte position of seven short streams; read errors of every character (see above: also values "
-            "that wrap io.EOF / io.ErrUnexpectedEOF, network errors, context look-alikes, projected by identity); corpus: D3 / D3b witnesses.",
+            "bytes, plus endings (clean, and a read error of each of the 38 characters) after every byte position of seven short streams; read errors of every character (see above: also values "
+            "that wrap io.EOF / io.ErrUnexpectedEOF, network errors, context look-alikes, and values that ARE io.ErrUnexpectedEOF / bufio.ErrTooLong / sse.ErrUnexpectedEOF / context.Canceled ..., "
+            "projected by identity); corpus: D3 / D3b witnesses, sentinel read errors at an event boundary / in mid-line / after a CR / on an empty stream.",
     "assumptions": ["events larger than the scanner buffer (bufio.ErrTooLong) are outside the streams generated here (C20)",
                     "the context is cancelled only at the instants a script can name: inside RoundTrip, inside Read, inside OnRetry before a wait >= 0.9 s"],
 }
